@@ -49,10 +49,11 @@ CHECKS.update({
                   "uncached cells, the uncached cells passed through, references read by attribute in the reference graph); the graph is ACYCLIC (a read element is evaluated with strictly less "
                   "fuel than its reader). Model tied to mx preds/succs/precedents on every run; reference-interpreter oracle.",
              note=EXEC_NOTE + "; defs_ok, refn_ok, s_reent=false hypotheses in the proved histories; precedents() of references read by name is checked by correspondence (cov_rd RName) only", technique="Coq proof (coverage invariant Cov and exactness invariant Exa through push/hit/pop/rollback and every edit; infinite-descent argument for acyclicity) + vm_compute correspondence + reference-interpreter oracle", design="6/C08"),
- "C09": dict(text="Coq theorems (partial): flipping the cached flag of any cells at any point keeps the invariant, so all later answers are the specification values; uncached cells hold no "
-                  "values; invalidation reaches values computed through uncached cells (object-node coverage). Independence of the specification value from the flags is not mechanised "
-                  "(None check: finding D33); checked by the two-flag-assignment differential on every run.",
-             note=EXEC_NOTE + "; defs_ok, s_reent=false, no OpSetRef", technique="Coq proof (set_cached preserves Quiet; coverage of uncached cells) + vm_compute correspondence + flag-assignment differential", design="6/C09"),
+ "C09": dict(text="Coq theorems: flipping the cached flag of any cells at any point keeps the invariant, so all later answers are the specification values; uncached cells hold no values; "
+                  "invalidation reaches values computed through uncached cells (object-node coverage); the specification value does not depend on the flags (flags_irrelevant - false of the pinned "
+                  "code, finding D33, repaired in /repo 008a3ab: the None check now applies to uncached cells too), hence two reachable states whose definitions differ only in flags answer every "
+                  "request alike (depth-limit error excluded). Checked on every run by the two-flag-assignment differential.",
+             note=EXEC_NOTE + "; defs_ok, refn_ok, s_reent=false; 'accepts unhashable arguments when uncached' (Python hashing) is outside the model", technique="Coq proof (set_cached preserves Quiet; coverage of uncached cells; flag-insensitivity of the specification evaluator by induction on fuel) + vm_compute correspondence + flag-assignment differential", design="6/C09"),
  "C17": dict(text="Coq theorems: from any state satisfying the executor invariant - hence after any sequence of earlier evaluations whatever they returned (escaped failures, failures caught by "
                   "formulas, no restriction on the formulas), and after any edit history admitted by C02's hypotheses - a failing top-level evaluation records exactly the specification's error "
                   "and exactly the specification's executing chain (Chain.spec_chain: a function of current definitions and inputs only; elements outermost first with the line of the next call "
